@@ -60,8 +60,8 @@ def ind(lines, n=2):
 
 class Record:
     """A parameter declared (by the caller of the translator) to be an object of which only
-    int-valued attributes are read: `ty.bits` is translated as the extra Int parameter `ty_bits`.
-    `bool_attrs` are attributes read as truth values (still Int parameters, tested `!= 0`)."""
+    int- or bool-valued attributes are read: `ty.bits` is translated as the extra Int parameter `ty_bits`
+    (a truth value is tested `!= 0`); the attribute `is:Cls` stands for `isinstance(ty, Cls)`."""
 
     def __init__(self, attrs):
         self.attrs = list(attrs)
@@ -402,13 +402,21 @@ class Fn:
             self.fail(e, f"unary operator {type(e.op).__name__}")
         if isinstance(e, ast.BinOp):
             return self.binop(e, e.op, e.left, e.right, defined)
+        if isinstance(e, ast.BoolOp):
+            # `a and b` / `a or b` used for its VALUE is one of the operands, not a truth value:
+            # only when every operand is a bool do the two coincide
+            for v in e.values:
+                if self.etype(v) != "bool":
+                    self.fail(e, "and/or used for its value on non-bool operands")
         if isinstance(e, (ast.Compare, ast.BoolOp)):
             pre, p = self.cond(e, defined)
             return pre, f"(decide {p})", "bool"
         if isinstance(e, ast.IfExp):
             pre, c = self.cond(e.test, defined)
             p1, a, ta = self.expr(e.body, defined)
-            p2, b, tb = self.expr(e.orelse, defined, ta)
+            p2, b, tb = self.expr(e.orelse, defined)
+            if ta != tb:
+                self.fail(e, "conditional expression whose branches have different types")
             if p1 or p2:
                 self.fail(e, "conditional expression with a possibly-raising branch")
             return pre, f"(if {c} then {a} else {b})", ta
